@@ -672,8 +672,21 @@ func ruleMethodTable(c *Ctx, p *core.Program, rule string) {
 		sort.Strings(out)
 		return strings.Join(out, "+")
 	}
-	wt := switchTable(wr, func(v ssa.Value) bool { return core.IsNamed(v.Type(), core.PkgCompress, "Method") })
-	rt := switchTable(rb, func(v ssa.Value) bool { return core.IsNamed(v.Type(), core.PkgCompress, "methodEncoding") })
+	// the switch may sit in the function itself or in a helper it calls
+	holder := func(root *ssa.Function, sel func(ssa.Value) bool) (*ssa.Function, map[int64]*ssa.BasicBlock) {
+		best, bt := root, switchTable(root, sel)
+		for _, f := range core.StaticReachList(root) {
+			if f == nil || f.Blocks == nil || pkgOf(f) == nil || pkgOf(f).Path() != core.PkgCompress {
+				continue
+			}
+			if t := switchTable(f, sel); len(t) > len(bt) || len(t) == len(bt) && len(t) > 0 && f.String() < best.String() && best != root {
+				best, bt = f, t
+			}
+		}
+		return best, bt
+	}
+	wr, wt := holder(wr, func(v ssa.Value) bool { return core.IsNamed(v.Type(), core.PkgCompress, "Method") })
+	rb, rt := holder(rb, func(v ssa.Value) bool { return core.IsNamed(v.Type(), core.PkgCompress, "methodEncoding") })
 	// the method table initialiser
 	tbl := map[int64]int64{}
 	if pk := p.Prog.Package(p.Pkgs[core.PkgCompress].Types); pk != nil {
